@@ -105,7 +105,7 @@ def run_property(prop, tier, seed, replay=None):
     work = os.path.join(CACHE, "work", "%s-%s" % (prop, tier))
     records, build_fail = run_programs("K", "drv_dbg.hpp", progs, cases, configs, work, exe, nshards=16, name="dbg")
     os.environ.pop("VERIF_MAX_RESTARTS", None)
-    for (sh_, cfg, blog) in build_fail:
+    for (sh_, cfg, blog) in {c: (s_, c, l) for (s_, c, l) in reversed(build_fail)}.values():
         rep.violation("debug-check driver shard %d no longer builds in configuration %s" % (sh_, cfg),
                       {"obligation": "corr:dbg/build/%d/%s" % (sh_, cfg), "log": blog[-3000:], "signature": "build:dbg:%s" % cfg}, True)
     evaluations, flagged, nontriv = 0, [], set()
